@@ -127,6 +127,9 @@ pub struct CbCfg {
     pub fallback: bool,
     /// the fallback's future stays pending until the explorer opens its gate
     pub fallback_gated: bool,
+    /// builder order: the (type-changing) failure_classifier call comes first and every other
+    /// setting after it, instead of last
+    pub classifier_first: bool,
 }
 
 /// Gate and invocation log of the (optionally gated) fallback function.
@@ -177,7 +180,7 @@ impl CbCfg {
             self.permitted,
             self.slow_ms,
             self.slow_rate,
-            if self.custom_classifier { "custom" } else { "default" },
+            if self.custom_classifier && self.classifier_first { "custom(set first)" } else if self.custom_classifier { "custom" } else { "default" },
             self.fallback,
             if self.fallback_gated { "(pending until released)" } else { "" }
         )
@@ -208,14 +211,25 @@ pub fn build_nested(cfg: &CbCfg, inner: Shared, origin: tokio::time::Instant, ne
     (h, tl)
 }
 
-pub fn build_full(cfg: &CbCfg, inner: Shared, origin: tokio::time::Instant, nest: Option<Arc<trv_core::nest::Nest>>) -> (Box<dyn Cb>, TransitionLog, Arc<FbGate>) {
-    let log: TransitionLog = Arc::new(Mutex::new(vec![]));
+/// "No deadline": wait_ms values from here on mean Duration::MAX.
+pub const WAIT_FOREVER: u64 = u64::MAX / 4;
+
+fn wait_of(cfg: &CbCfg) -> Duration {
+    if cfg.wait_ms >= WAIT_FOREVER {
+        Duration::MAX
+    } else {
+        Duration::from_millis(cfg.wait_ms)
+    }
+}
+
+/// Every setting except the classifier, on a builder of any classifier type.
+fn settings<C>(mut b: tower_resilience_circuitbreaker::CircuitBreakerConfigBuilder<C>, cfg: &CbCfg, inner: &Shared, origin: tokio::time::Instant, log: &TransitionLog, nest: &Option<Arc<trv_core::nest::Nest>>) -> tower_resilience_circuitbreaker::CircuitBreakerConfigBuilder<C> {
     let l2 = log.clone();
     let inner_for_step = inner.clone();
-    let mut b = CircuitBreakerLayer::builder()
+    b = b
         .failure_rate_threshold(cfg.threshold)
         .sliding_window_size(cfg.window_size)
-        .wait_duration_in_open(Duration::from_millis(cfg.wait_ms))
+        .wait_duration_in_open(wait_of(cfg))
         .permitted_calls_in_half_open(cfg.permitted)
         .on_state_transition(move |from, to| {
             let now = tokio::time::Instant::now().saturating_duration_since(origin).as_millis() as u64;
@@ -235,7 +249,12 @@ pub fn build_full(cfg: &CbCfg, inner: Shared, origin: tokio::time::Instant, nest
     if let Some(s) = cfg.slow_ms {
         b = b.slow_call_duration_threshold(Duration::from_millis(s)).slow_call_rate_threshold(cfg.slow_rate);
     }
-    let gi = GatedInner::new(inner);
+    b
+}
+
+pub fn build_full(cfg: &CbCfg, inner: Shared, origin: tokio::time::Instant, nest: Option<Arc<trv_core::nest::Nest>>) -> (Box<dyn Cb>, TransitionLog, Arc<FbGate>) {
+    let log: TransitionLog = Arc::new(Mutex::new(vec![]));
+    let gi = GatedInner::new(inner.clone());
     let gate: Arc<FbGate> = Arc::new(FbGate::default());
     let g2 = gate.clone();
     let gated = cfg.fallback_gated;
@@ -243,8 +262,15 @@ pub fn build_full(cfg: &CbCfg, inner: Shared, origin: tokio::time::Instant, nest
         g2.invoked.lock().unwrap().push(req.id);
         Box::pin(FbFut { gate: g2.clone(), gated, resp: Some(Resp { serial: FALLBACK_SERIAL, req: req.id, key: req.key }) })
     };
+    fn classify(r: &Result<Resp, InnerErr>) -> bool {
+        matches!(r, Err(e) if e.kind != 1)
+    }
     let h: Box<dyn Cb> = if cfg.custom_classifier {
-        let layer = b.failure_classifier(|r: &Result<Resp, InnerErr>| matches!(r, Err(e) if e.kind != 1)).build();
+        let layer = if cfg.classifier_first {
+            settings(CircuitBreakerLayer::builder().failure_classifier(classify), cfg, &inner, origin, &log, &nest).build()
+        } else {
+            settings(CircuitBreakerLayer::builder(), cfg, &inner, origin, &log, &nest).failure_classifier(classify).build()
+        };
         let svc = layer.layer_fn(gi);
         if cfg.fallback {
             Box::new(svc.with_fallback(fb.clone()))
@@ -252,7 +278,7 @@ pub fn build_full(cfg: &CbCfg, inner: Shared, origin: tokio::time::Instant, nest
             Box::new(svc)
         }
     } else {
-        let layer = b.build();
+        let layer = settings(CircuitBreakerLayer::builder(), cfg, &inner, origin, &log, &nest).build();
         let svc = layer.layer_fn(gi);
         if cfg.fallback {
             Box::new(svc.with_fallback(fb))
